@@ -101,6 +101,69 @@ def conformance(prog, cd, rep, rule="layout-conformance"):
         rep.fail(rule, "basictdf.py", "Tdf", sig if sig is not None else tdf.node, "Tdf.SIGNATURE differs from the TDF signature bytes", construct="Tdf.SIGNATURE")
 
 
+def code_tables(prog, rep, rule="code-tables"):
+    """The jump table identifies a block by a numeric type code and says how it is laid out by a numeric format code; both are
+    part of the file format (a BTS reader dispatches on them).  Reference: BLOCK_TYPES / FORMATS of the reference layout
+    (the codes of the eight blocks of the BTS capture are confirmed by the oracle-sanity parse, thorough tier).  Checked:
+    the enum member each implemented block class declares as its `type` has the reference code, the unused slot is code 0,
+    and the members of the format enums the reference distinguishes have the reference codes."""
+    from ..reference_layout import BLOCK_TYPES, FORMATS
+    bt = prog.need_cls("BlockType", "tdfBlock")
+    members = prog.enum_members(bt)
+    n = 0
+
+    def declared_type(c):
+        for k in prog.mro(c):
+            v = k.assigns.get("type")
+            if v is not None:
+                return k, v
+        return None, None
+
+    for code, cname in sorted(BLOCK_TYPES.items()):
+        c = next((k for m in prog.modules.values() for k in m.classes.values() if k.name == cname), None)
+        if c is None:
+            raise AnalysisError(f"anchor vanished: block class {cname} of the reference type-code table")
+        owner, v = declared_type(c)
+        if not (isinstance(v, ast.Attribute) and norm(v.value) == "BlockType" and v.attr in members):
+            raise AnalysisError(f"{cname}: the class-level `type` is not a BlockType member (`{norm(v) if v is not None else None}`)")
+        n += 1
+        got = members[v.attr]
+        if got == code:
+            rep.ok(rule, f"{cname}.type = BlockType.{v.attr} = {code}", nontrivial=True)
+        else:
+            rep.fail(rule, bt.module.path.name, "BlockType", bt.assigns.get(v.attr, bt.node), f"{cname} blocks are recorded with type code {got} (BlockType.{v.attr}); the TDF format identifies them by {code}: other readers do not find / mis-dispatch the block",
+                     construct=f"BlockType code of {cname}")
+    ub = next((k for m in prog.modules.values() for k in m.classes.values() if k.name == "UnusedBlock"), None)
+    if ub is not None:
+        owner, v = declared_type(ub)
+        if isinstance(v, ast.Attribute) and v.attr in members:
+            n += 1
+            if members[v.attr] == 0:
+                rep.ok(rule, f"unused slots carry type code 0 (BlockType.{v.attr})")
+            else:
+                rep.fail(rule, bt.module.path.name, "BlockType", bt.node, f"unused slots are recognised by type code {members[v.attr]}; the format (and Tdf.new, which writes 0) uses 0", construct="BlockType code of unused slot")
+    for cname, table in sorted(FORMATS.items()):
+        c = next((k for m in prog.modules.values() for k in m.classes.values() if k.name == cname), None)
+        if c is None:
+            raise AnalysisError(f"anchor vanished: block class {cname} of the reference format-code table")
+        # the format enum lives next to the block class (several enums share member names like byTrack)
+        cands = [(m, kk) for m in prog.modules.values() for kk in m.classes.values()
+                 if any(norm(b) in ("Enum", "enum.Enum", "IntEnum", "enum.IntEnum") for b in kk.node.bases) and set(table.values()) <= set(prog.enum_members(kk))
+                 and cname in m.classes and any(isinstance(x, ast.Name) and x.id == kk.name for x in ast.walk(m.classes[cname].node))]
+        k = cands[0][1] if len(cands) == 1 else None
+        if k is None:
+            raise AnalysisError(f"{cname}: no format enum with members {sorted(table.values())} found")
+        mem = prog.enum_members(k)
+        for code, name in sorted(table.items()):
+            n += 1
+            if mem.get(name) == code:
+                rep.ok(rule, f"{k.name}.{name} = {code}")
+            else:
+                rep.fail(rule, k.module.path.name, k.name, k.node, f"format `{name}` of {cname} is recorded as code {mem.get(name)}; the TDF format uses {code}: the layout a reader selects for these bytes is another one",
+                         construct=f"{k.name}.{name} code")
+    rep.floor(rule, n, 15)
+
+
 def run(prog, rep):
     cd = Codecs(prog)
     cd.flag_errors(rep)
@@ -113,6 +176,7 @@ def run(prog, rep):
     )
     rep.attempt(endianness, prog, rep)
     rep.attempt(conformance, prog, cd, rep)
+    rep.attempt(code_tables, prog, rep)
     from .. import primitives as PR
     rep.attempt(PR.tdftype_primitives, prog, rep)
     rep.attempt(PR.string_codec, prog, rep)
